@@ -5,7 +5,8 @@ From Coq Require Import List Arith Bool PeanoNat Lia Permutation.
 Import ListNotations.
 Require Import Fggs.Model.Conj Fggs.Proofs.ConjBase Fggs.Proofs.ConjNames.
 Require Import Fggs.Model.TreeDec Fggs.Proofs.TreeDec_graph Fggs.Proofs.TreeDec_tdok Fggs.Model.Factorize
-               Fggs.Proofs.Fz_fresh Fggs.Proofs.Fz_rooted Fggs.Proofs.Fz_struct Fggs.Proofs.Fz_main.
+               Fggs.Proofs.Fz_fresh Fggs.Proofs.Fz_rooted Fggs.Proofs.Fz_struct Fggs.Proofs.Fz_main
+               Fggs.Proofs.Fz_bridge Fggs.Proofs.Fz_final.
 
 Definition NT (s : str) (ty : list nat) : elabel := {| el_name := s; el_type := ty; el_term := false |}.
 Definition TM (s : str) (ty : list nat) : elabel := {| el_name := s; el_type := ty; el_term := true |}.
@@ -48,6 +49,18 @@ Example path4_acb :
     /\ length rs = 4
     /\ inline_ok path4 rs = true /\ fresh_ok [[83]; [116]] rs = true /\ nodes_ok path4 td_acb rs = true.
 Proof. eexists. eexists. split; [vm_compute; reflexivity|]. repeat split; reflexivity. Qed.
+
+Example path4_hyps :
+  wf_rule path4 /\ ftd_wfb td_mf = true /\ valid_td (primal path4) (td_of_ftd td_mf)
+  /\ exists rs ls, factorize_rule_model path4 [] td_mf ords_mf = Ok (rs, ls) /\ length rs = 3.
+Proof.
+  split; [|split; [reflexivity|split; [apply td_ok_sound; reflexivity|]]].
+  - split; [|split].
+    + apply nodupb_NoDup. reflexivity.
+    + intros e He. apply subset_incl. revert e He. apply forallb_forall. reflexivity.
+    + intros x [].
+  - eexists. eexists. split; [vm_compute; reflexivity|reflexivity].
+Qed.
 
 (** * F7: factorize_fgg drops [method] *)
 Definition g_path : fhrg :=
